@@ -82,6 +82,12 @@ theorem C08_lock_progress (sys : Sys σ Op ρ) (hx : ∀ op, sys.mode op = .excl
     ∃ u, (step sys s (.read u)).isSome ∨ (step sys s (.commit u)).isSome ∨ (step sys s (.rel u)).isSome :=
   lock_progress sys hx h t op i hw
 
+/-- whatever the driver executes (complete calls `inv; acq; read; commit; rel`, seeded schedules) is a `run`
+    from a reachable state, hence reachable: the theorems apply to every state the driver visits -/
+theorem C08_driver_runs_reachable (sys : Sys σ Op ρ) (s s' : State σ Op ρ) (acts : List (Act Op))
+    (h : Reach sys s) (hr : run sys s acts = some s') : Reach sys s' :=
+  reach_run sys acts h hr
+
 /-! ### instantiation: the wrapped object is the ideal deque -/
 
 theorem queueSys_excl : ∀ op, queueSys.mode op = .excl := fun _ => rfl
